@@ -102,3 +102,10 @@ package http
 //@   modifies heap, callcount, status(w)
 //@   loop 0
 //@     invariant idx: 0 <= loopidx && loopidx <= len(ranged()) && forall(i, 0, len(ranged()), ranged()[i] != nil)
+
+// listenAndServe hands the registered mux itself to net/http (C01: requests reach the registered handlers unmodified, in
+// particular with the RemoteAddr of the connection they arrived on). Its only caller passes s.Mux (after a go statement,
+// hence outside what is verified: stated assumption).
+//@ func (s *Server) listenAndServe(addr, handler, context) (err)
+//@   requires typeis(handler, "*net/http.ServeMux")
+//@   havoc
